@@ -132,9 +132,10 @@ class Run:
                 print('ANALYSIS-ERROR property=%s %s' % (self.prop, e))
             code = 2
         if new and code == 0:
-            os.makedirs(os.path.join(VERIF, 'replay'), exist_ok=True)
+            out = os.environ.get('VERIF_OUT', VERIF)
+            os.makedirs(os.path.join(out, 'replay'), exist_ok=True)
             for f in new:
-                path = os.path.join(VERIF, 'replay', '%s.%s.%s.json' % (self.prop, f.rule.split('.')[-1], f.short))
+                path = os.path.join(out, 'replay', '%s.%s.%s.json' % (self.prop, f.rule.split('.')[-1], f.short))
                 with open(path, 'w') as fh:
                     json.dump(
                         {
@@ -210,8 +211,11 @@ class Run:
             'wall_s': round(time.time() - self.t0, 3),
             'violations': n_new,
         }
-        os.makedirs(os.path.join(VERIF, 'evidence'), exist_ok=True)
-        path = os.path.join(VERIF, 'evidence', self.prop + '.json')
+        # VERIF_OUT: the seed / twin runners point this at a scratch directory so that runs against a modified
+        # tree never overwrite the evidence of the real tree
+        out = os.environ.get('VERIF_OUT', VERIF)
+        os.makedirs(os.path.join(out, 'evidence'), exist_ok=True)
+        path = os.path.join(out, 'evidence', self.prop + '.json')
         tmp = path + '.%d.tmp' % os.getpid()
         with open(tmp, 'w') as fh:
             json.dump(ev, fh, indent=1, default=str)
